@@ -46,7 +46,42 @@ func main() {
 					}
 				}
 			} else {
-				scs = consnet.Product(cfgs, full, d)
+				scs = append(scs, consnet.Product(cfgs, full, d)...)
+			}
+			// the split attack: the Byzantine proposer of height 1 round 0 (power below one third) shows block A and its
+			// votes for A to one part of the honest nodes and block B and its votes for B to the rest - for every
+			// bipartition of the honest nodes and validator sets whose total power covers every residue mod 3
+			nSplit := 0
+			for _, pw := range [][]int64{{1, 1, 1, 1}, {1, 1, 1, 1, 1}, {1, 1, 1, 1, 1, 1}, {1, 1, 1, 2}, {1, 1, 2, 2}, {2, 2, 2, 1, 1}} {
+				cfg := consnet.Scenario{Powers: pw, Byz: -1, Heights: 2}
+				b := consnet.ProposerAt(&cfg, 1, 0)
+				var tot int64
+				for _, p := range pw {
+					tot += p
+				}
+				if b < 0 || pw[b]*3 >= tot {
+					continue
+				}
+				var honest []int
+				for i := range pw {
+					if i != b {
+						honest = append(honest, i)
+					}
+				}
+				for mask := 1; mask < 1<<uint(len(honest)-1); mask++ {
+					var set []int
+					for i, h := range honest {
+						if mask&(1<<uint(i)) != 0 {
+							set = append(set, h)
+						}
+					}
+					sc := consnet.Scenario{Powers: pw, Byz: b, Heights: 2, Extra: "split-attack", Rules: []consnet.Rule{
+						{Kind: "byz-equiv", Round: 0, Set: set},
+						{Kind: "byz-split", Msg: "prevote", Round: 0, Set: set, Alt: "alt"},
+						{Kind: "byz-split", Msg: "precommit", Round: 0, Set: set, Alt: "alt"}}}
+					scs = append(scs, &sc)
+					nSplit++
+				}
 			}
 			// crashes and restarts of honest nodes ("whatever crashes and restarts honest nodes go through"):
 			// a crash before every (quick: every 3rd) durable write of each honest node in four base executions,
@@ -72,8 +107,8 @@ func main() {
 			}
 			devs, devInfo := consnet.DeviationScenarios(devBases, run.Pick(1, 2), run.WorkDir()+"/devref", 20000)
 			scs = append(scs, devs...)
-			bounds := map[string]interface{}{"deviation_bound": d, "validators": 4, "heights": 2, "rounds_named_by_rules": []int{0, 1}, "delay_bounded_schedules": len(devs), "delay_bounded_info": devInfo, "crash_scenarios": len(crashes), "crash_info": crashInfo}
-			return scs, "crash of each honest node before every (quick: every third) durable write in four base executions incl. a fork attempt, with and without the harness repair of the reloaded proposer; delay-bounded scheduling (every non-default input choice - other pending delivery, early/deferred delivery, any armed timeout, skipped turn - at every scheduling decision of the base executions; thorough: pairs) plus every compatible subset of <= d deviation rules (quick: all single rules naming rounds 0-1 and all pairs of round-0 rules; thorough: all subsets of size <= 3 of the full menu, budget-capped) (hold/mute/early-timeout/Byzantine silent, equivocating proposal, fresh proposal, split votes, future-round votes) over 4 real ConsensusState machines (one Byzantine, honest by default), each execution run to 2 committed heights under the fair default schedule; distinct = distinct (committed block per node and height, max round) outcomes",
+			bounds := map[string]interface{}{"deviation_bound": d, "validators": 4, "heights": 2, "rounds_named_by_rules": []int{0, 1}, "delay_bounded_schedules": len(devs), "delay_bounded_info": devInfo, "crash_scenarios": len(crashes), "crash_info": crashInfo, "split_attack_scenarios": nSplit}
+			return scs, "the split attack (equivocating Byzantine proposer of height 1 with power below 1/3 shows block A and its prevote/precommit for A to one part of the honest nodes, block B and its votes for B to the rest) for every bipartition of the honest nodes over six validator sets (totals of every residue mod 3); crash of each honest node before every (quick: every third) durable write in four base executions incl. a fork attempt, with and without the harness repair of the reloaded proposer; delay-bounded scheduling (every non-default input choice - other pending delivery, early/deferred delivery, any armed timeout, skipped turn - at every scheduling decision of the base executions; thorough: pairs) plus every compatible subset of <= d deviation rules (quick: all single rules naming rounds 0-1 and all pairs of round-0 rules; thorough: all subsets of size <= 3 of the full menu, budget-capped) (hold/mute/early-timeout/Byzantine silent, equivocating proposal, fresh proposal, split votes, future-round votes) over 4 real ConsensusState machines (one Byzantine, honest by default), each execution run to 2 committed heights under the fair default schedule; distinct = distinct (committed block per node and height, max round) outcomes",
 				bounds
 		},
 		Budget: func(run *core.Run) time.Duration {
